@@ -1,1 +1,2 @@
 pub mod chars;
+pub mod canon;
